@@ -433,3 +433,109 @@ def _slice(eng, st, args, kwargs, node):
 		yield st, SSlice(args[0], args[1], None)
 	else:
 		yield st, SSlice(*args[:3])
+
+
+# ---- list / dict methods -------------------------------------------------------------------------------------------
+
+@lib('method:append')
+def _append(eng, st, obj, args, kwargs, node, site):
+	if not (isinstance(obj, Ref) and obj.kind == 'list'):
+		raise Unsupported(f'append on {obj!r}')
+	c = st.heap[obj.addr]
+	v = args[0]
+	if isinstance(c, list):
+		st.heap[obj.addr] = c + [v]
+	elif isinstance(c, SSeq):
+		st.heap[obj.addr] = c.snoc(eng.to_elem(st, c.T, v))
+	else:
+		raise Unsupported(f'append on {c!r}')
+	yield st, None
+
+
+@lib('method:index')
+def _index(eng, st, obj, args, kwargs, node, site):
+	"""list.index(x): least i with list[i] == x, ValueError if there is none"""
+	c = st.deref(obj)
+	x = args[0]
+	if isinstance(c, (list, tuple)) and not is_sym(x):
+		try:
+			yield st, c.index(x)
+		except ValueError:
+			yield st, Raised('ValueError')
+		return
+	if isinstance(c, SSeq):
+		j = z3.Int(fresh_name('j'))
+		found = z3.Exists([j], z3.And(0 <= j, j < c.length, bool_term(values_equal(c.at(j), x))))
+		for s2, ok in eng.branch(st, found):
+			if not ok:
+				yield s2, Raised('ValueError')
+				continue
+			i = z3.Int(fresh_name('idx'))
+			s2.assume(z3.And(0 <= i, i < c.length, bool_term(values_equal(c.at(i), x)),
+			                 z3.ForAll([j], z3.Implies(z3.And(0 <= j, j < i), z3.Not(bool_term(values_equal(c.at(j), x)))))))
+			yield s2, SInt(i)
+		return
+	raise Unsupported(f'index on {c!r}')
+
+
+@lib('method:get')
+def _dict_get(eng, st, obj, args, kwargs, node, site):
+	c = st.deref(obj)
+	k = args[0]
+	default = args[1] if len(args) > 1 else None
+	if isinstance(c, dict) and not is_sym(k) and not isinstance(k, Ref):
+		yield st, c.get(k, default)
+		return
+	from ..interp import SDict
+	if isinstance(c, SDict):
+		for s2, has in eng.branch(st, c.has(k)):
+			yield s2, (c.get(k) if has else default)
+		return
+	h = eng.lib.get('get:' + type(c).__name__)
+	if h is not None:
+		yield from h(eng, st, obj, args, kwargs, node, site)
+		return
+	raise Unsupported(f'get on {c!r}')
+
+
+@lib('method:items', 'method:keys', 'method:values')
+def _dict_views(eng, st, obj, args, kwargs, node, site):
+	c = st.deref(obj)
+	name = node.func.attr
+	if isinstance(c, dict):
+		yield st, ConcreteIter(list(getattr(c, name)()))
+		return
+	raise Unsupported(f'{name}() on {c!r}')
+
+
+@lib('method:setdefault')
+def _setdefault(eng, st, obj, args, kwargs, node, site):
+	c = st.deref(obj)
+	k, d = args[0], (args[1] if len(args) > 1 else None)
+	if isinstance(c, dict) and not is_sym(k) and not isinstance(k, Ref):
+		if k not in c:
+			nc = dict(c)
+			nc[k] = d
+			st.heap[obj.addr] = nc
+			yield st, d
+		else:
+			yield st, c[k]
+		return
+	raise Unsupported(f'setdefault on {c!r}')
+
+
+@lib('method:pop')
+def _pop(eng, st, obj, args, kwargs, node, site):
+	c = st.deref(obj)
+	if isinstance(c, dict) and args and not is_sym(args[0]):
+		nc = dict(c)
+		if args[0] in nc:
+			v = nc.pop(args[0])
+			st.heap[obj.addr] = nc
+			yield st, v
+		elif len(args) > 1:
+			yield st, args[1]
+		else:
+			yield st, Raised('KeyError')
+		return
+	raise Unsupported(f'pop on {c!r}')
